@@ -8,6 +8,17 @@ OPTS = [(False, False, False), (True, False, False), (False, True, False), (True
         (True, False, True), (True, True, True)]
 
 
+_SUB = {}
+
+
+def _SubCell(B):
+    if 'c' not in _SUB:
+        class SubCell(B.Cell):
+            pass
+        _SUB['c'] = SubCell
+    return _SUB['c']
+
+
 def same(R, src_struct, src_hash, got, what, W):
     R.check(got.hash == src_hash, 'roundtrip-hash', f'{what}: parsed root hash differs', W)
     R.check(bridge.struct_lib(got) == src_struct, 'roundtrip-structure', f'{what}: parsed DAG differs in bits/type/refs', W)
@@ -36,6 +47,9 @@ def one(R, B, name, r, c, W, all_forms=True, huge=False, light=False):
                        ('Slice.one_from_boc', lambda d: B.Slice.one_from_boc(d).to_cell())]
             if ordinary_root:
                 entries.append(('Builder.one_from_boc', lambda d: B.Builder.one_from_boc(d).end_cell()))
+            # the same entry points reached through subclasses (the parser constructs `cls` objects)
+            entries.append(('CellSubclass.one_from_boc', lambda d: _SubCell(B).one_from_boc(d)))
+            entries.append(('CellSubclass.from_boc', lambda d: _SubCell(B).from_boc(d)[0]))
             if huge or light:
                 entries = [entries[(oi + r.hash[1]) % len(entries)]]
             for ename, f in entries:
